@@ -103,6 +103,8 @@ class View:
             if e.src < 0:
                 return self.concrete(self.ref_param(-1 - e.src), serial)
             nid = self.ids[e.src]
+            if self.prog.nodes[e.src].retnone:
+                return None
             if e.src in pre:
                 return Tok(nid, pre[e.src], tuple(e.path))
             ex = self.exits.get(nid)
